@@ -226,6 +226,7 @@ static void vs_out_reset(uint32_t refs)
     gs_out_dead = gs_out_setdef = gs_out_inputs = gs_out_input_unaccepted = gs_out_reg = gs_out_unreg = gs_out_after_dead = 0;
     gs_out_acc_id = -1; gs_out_acc_ptr = NULL; gs_out_last_input = NULL; gs_out_last_input_def = -1; gs_out_last_req = NULL;
 }
+static void vs_reset_more(void);
 /* DFCC treats every static object as unknown at the start of an entry: everything the stubs rely on is
  * (re)assigned here, including the function-pointer tables */
 static void vs_reset_all(void)
@@ -238,10 +239,64 @@ static void vs_reset_all(void)
     gs_out_mgr.refcount = NULL; gs_out_mgr.signature = 0x6f757430; gs_out_mgr.upipe_err_str = NULL;
     gs_out_mgr.upipe_command_str = NULL; gs_out_mgr.upipe_event_str = NULL; gs_out_mgr.upipe_alloc = NULL;
     gs_out_mgr.upipe_input = stub_out_input; gs_out_mgr.upipe_control = stub_out_control; gs_out_mgr.upipe_mgr_control = NULL;
-    vs_probe_reset(); vs_out_reset(1);
+    vs_probe_reset(); vs_out_reset(1); vs_reset_more();
     gs_udict_live = gs_uref_live = gs_uref_freed = 0; gs_uref_last_freed = NULL;
 }
 #endif
+
+/* ------------------------------------------------------------------ other interfaces (opaque stubs) */
+#include <upipe/ubuf.h>
+#include <upipe/upump.h>
+/* a buffer manager that knows nothing about content: every control answers arbitrarily and has no effect
+ * (units that reason about payloads use the real ubuf_block_mem manager instead) */
+static int gs_ubuf_live, gs_ubuf_freed;
+static struct ubuf_mgr gs_ubuf_mgr;
+static int stub_ubuf_control(struct ubuf *ubuf, int command, va_list args)
+{
+    return VS_CHOICE(ubuf_ctl_ret) & 1 ? UBASE_ERR_NONE : UBASE_ERR_INVALID;
+}
+static void stub_ubuf_free(struct ubuf *ubuf) { gs_ubuf_live--; if (gs_ubuf_freed < 1000000) gs_ubuf_freed++; free(ubuf); }
+static struct ubuf *vs_make_ubuf(void)
+{
+    struct ubuf *b = malloc(sizeof(*b));
+    if (b == NULL) return NULL;
+    b->mgr = &gs_ubuf_mgr; uchain_init(&b->uchain); gs_ubuf_live++;
+    return b;
+}
+/* event loop: pumps are opaque tokens; start/stop/free are counted */
+static struct upump_mgr gs_upump_mgr;
+static struct upump gs_upump;
+static int gs_pump_alloc, gs_pump_start, gs_pump_stop, gs_pump_free;
+static struct upump *stub_upump_alloc(struct upump_mgr *mgr, int event, va_list args)
+{
+    if (VS_CHOICE(upump_alloc_fails) & 1) return NULL;
+    gs_pump_alloc++; gs_upump.mgr = &gs_upump_mgr;
+    return &gs_upump;
+}
+static int stub_upump_control(struct upump *upump, int command, va_list args)
+{
+    if (command == UPUMP_START) gs_pump_start++;
+    else if (command == UPUMP_STOP) gs_pump_stop++;
+    else if (command == UPUMP_FREE) gs_pump_free++;
+    else if (command == UPUMP_ALLOC_BLOCKER) { struct upump_blocker **p = va_arg(args, struct upump_blocker **); *p = NULL; }
+    return UBASE_ERR_NONE;
+}
+/* requests: the upstream requester's callbacks */
+static int gs_req_provided, gs_req_freed;
+static int stub_urequest_provide(struct urequest *urequest, va_list args) { if (gs_req_provided < 1000000) gs_req_provided++; return UBASE_ERR_NONE; }
+static void stub_urequest_free(struct urequest *urequest) { if (gs_req_freed < 1000000) gs_req_freed++; }
+static const char *stub_str(int v) { return NULL; }
+static void *gs_keep[8];       /* keeps otherwise unreferenced stubs in the binary (restriction targets) */
+static void vs_reset_more(void)
+{
+    gs_keep[0] = (void *)stub_str; gs_keep[1] = (void *)stub_urequest_provide; gs_keep[2] = (void *)stub_urequest_free;
+    gs_keep[3] = (void *)vs_make_ubuf; gs_keep[4] = (void *)vs_make_uref;
+    gs_ubuf_mgr.refcount = NULL; gs_ubuf_mgr.signature = 0; gs_ubuf_mgr.ubuf_alloc = NULL;
+    gs_ubuf_mgr.ubuf_control = stub_ubuf_control; gs_ubuf_mgr.ubuf_free = stub_ubuf_free; gs_ubuf_mgr.ubuf_mgr_control = NULL;
+    gs_upump_mgr.refcount = NULL; gs_upump_mgr.signature = 0; gs_upump_mgr.opaque = NULL;
+    gs_upump_mgr.upump_alloc = stub_upump_alloc; gs_upump_mgr.upump_control = stub_upump_control; gs_upump_mgr.upump_mgr_control = NULL;
+    gs_ubuf_live = gs_ubuf_freed = gs_pump_alloc = gs_pump_start = gs_pump_stop = gs_pump_free = gs_req_provided = gs_req_freed = 0;
+}
 
 /* ------------------------------------------------------------------ pipe construction helpers */
 #ifndef VPIPE_HELPERS
